@@ -285,7 +285,7 @@ def main(chk):
                 'm sin 2φ₀, 64-bin histogram vs the analytic law, integer-typed and scalar degrees; model components with constant / integer / energy- / time-dependent polarization; '
                 'one simulate → PCUBE closure with a 6.5σ band. non-trivial = non-zero degree, model with a real dependence')
     chk.assumptions = TRUSTED
-    chk.lean(['IxpeVerif.Props.C01'], GEN)
+    chk.lean(['IxpeVerif.Props.C01', 'IxpeVerif.Props.Audit.C01'], GEN)
     corr_gen.run(chk, GEN, n=200 if chk.tier == 'quick' else 3000, tag='C01')
     explore(chk)
     return chk.finish(level='proof', trusted=TRUSTED, search=lambda k: explore(chk, 3))
